@@ -141,6 +141,7 @@ pub fn randbulk(ws: &[&str]) -> String {
             for _ in 0..per {
                 out.push(match kind.as_str() {
                     "csrf" => CsrfToken::new_random().secret().clone(),
+                    "pkceplain" => PkceCodeChallenge::new_random_plain().1.secret().clone(),
                     _ => PkceCodeChallenge::new_random_sha256().1.secret().clone(),
                 });
             }
@@ -168,6 +169,33 @@ pub fn seceq(ws: &[&str]) -> String {
         (Some(a), Some(b)) => (a, b),
         _ => return BAD.into(),
     };
+    // the very first comparisons of a process, made by many threads at once (lazily initialised
+    // state of the comparison must not be visible as a wrong answer)
+    static FIRST: std::sync::Once = std::sync::Once::new();
+    static FIRST_OK: std::sync::atomic::AtomicBool = std::sync::atomic::AtomicBool::new(true);
+    FIRST.call_once(|| {
+        let barrier = std::sync::Arc::new(std::sync::Barrier::new(16));
+        let hs: Vec<_> = (0..16)
+            .map(|i| {
+                let b = barrier.clone();
+                std::thread::spawn(move || {
+                    b.wait();
+                    let s = format!("first-use-{}", i % 4);
+                    let ok1 = CsrfToken::new(s.clone()) == CsrfToken::new(s.clone()) && AccessToken::new(s.clone()) == AccessToken::new(s.clone());
+                    let ok2 = !(ClientSecret::new(s.clone()) != ClientSecret::new(s.clone())) && CsrfToken::new(s.clone()) != CsrfToken::new(format!("{}x", s));
+                    ok1 && ok2 && h(&RefreshToken::new(s.clone())) == h(&RefreshToken::new(s))
+                })
+            })
+            .collect();
+        for t in hs {
+            if !t.join().unwrap_or(false) {
+                FIRST_OK.store(false, std::sync::atomic::Ordering::SeqCst);
+            }
+        }
+    });
+    if !FIRST_OK.load(std::sync::atomic::Ordering::SeqCst) {
+        return "concurrent-first-use-gave-wrong-answers".to_string();
+    }
     macro_rules! go {
         ($t:ident) => {{
             let x = $t::new(a.clone());
